@@ -100,7 +100,7 @@ Proof.
       reflexivity.
 Qed.
 
-(** * Clean-up paths never touch the directory *)
+(** * Clean-up paths: they never touch anything but the temp file *)
 Definition core_eq (s s' : st) : Prop :=
   sd s' = sd s /\ nrep s' = nrep s /\ wname s' = wname s.
 
@@ -113,6 +113,9 @@ Proof. unfold core_eq. intros (?&?&?) (?&?&?). repeat split; congruence. Qed.
 Lemma core_set_src b s : core_eq s (set_src b s).
 Proof. repeat split. Qed.
 
+Lemma core_set_try b s : core_eq s (set_try b s).
+Proof. repeat split. Qed.
+
 Lemma core_set_w ts s : core_eq s (set_w ts s).
 Proof.
   unfold set_w, core_eq, wname. destruct (wh s) as [[t x]|] eqn:E; simpl; rewrite ?E; auto.
@@ -120,58 +123,58 @@ Qed.
 
 Ltac fa := repeat (first [apply Forall_nil | apply Forall_cons]).
 
-Ltac fa_core :=
-  repeat (first [apply Forall_nil | apply Forall_cons]);
-  try first [ assumption
-            | apply core_set_src
-            | eapply core_eq_trans; [eassumption | apply core_set_src] ].
+(** what unwinding can do to a state: at most remove the file behind the write handle, and
+    only when the exception came out of the temp file's try block *)
+Definition un_rel (s s' : st) : Prop :=
+  nrep s' = nrep s /\ wname s' = wname s /\
+  (sd s' = sd s \/
+   (in_try s = true /\ exists t, wname s = Some t /\ sd s' = dremove t (sd s))).
 
-Lemma unwind_core F n s e : Forall (core_eq s) (all_states (unwind F n s e)).
+Ltac un_cases F n :=
+  unfold unwind, unwind2, unwind3, all_states;
+  destruct (F n); destruct (F (S n)); destruct (F (S (S n))).
+
+Ltac crush_st s :=
+  destruct s as [d_ so_ [[tw_ x_]|] it_ tm_ nr_]; [destruct x_|]; destruct it_; destruct so_.
+
+Lemma unwind_states F n s e : Forall (un_rel s) (all_states (unwind F n s e)).
 Proof.
-  unfold unwind, all_states.
-  pose proof (core_eq_refl s) as R.
-  pose proof (core_set_w TBroken s) as RB. pose proof (core_set_w TClosed s) as RC.
-  destruct (wh_is_open s).
-  - destruct (F n); simpl.
-    + destruct (src_open (set_w TClosed s)) eqn:O; [destruct (F (S n))|]; simpl; fa_core.
-    + destruct (src_open (set_w TBroken s)) eqn:O; [destruct (F (S n))|]; simpl; fa_core.
-    + fa_core.
-  - destruct (src_open s); [destruct (F n)|]; simpl; fa_core.
+  crush_st s; un_cases F n; cbn; fa;
+    unfold un_rel, wname; cbn; (split; [reflexivity|]); (split; [reflexivity|]);
+    first [left; reflexivity | right; split; [reflexivity|]; eexists; split; reflexivity].
 Qed.
 
 Lemma unwind_not_done F n s e : outc (unwind F n s e) <> Done.
-Proof.
-  unfold unwind.
-  destruct (wh_is_open s).
-  - destruct (F n); simpl.
-    + destruct (src_open (set_w TClosed s)); [destruct (F (S n))|]; simpl; discriminate.
-    + destruct (src_open (set_w TBroken s)); [destruct (F (S n))|]; simpl; discriminate.
-    + discriminate.
-  - destruct (src_open s); [destruct (F n)|]; simpl; discriminate.
-Qed.
+Proof. crush_st s; un_cases F n; cbn; discriminate. Qed.
 
 Lemma unwind_stop F n s e : stop (unwind F n s e) = None.
+Proof. crush_st s; un_cases F n; reflexivity. Qed.
+
+(** outside the try block nothing is removed *)
+Lemma unwind_notry F n s e : in_try s = false ->
+  Forall (fun s' => core_eq s s' /\ in_try s' = false) (all_states (unwind F n s e)) /\
+  rmfail (unwind F n s e) = false.
 Proof.
-  unfold unwind.
-  destruct (wh_is_open s).
-  - destruct (F n); simpl.
-    + destruct (src_open (set_w TClosed s)); [destruct (F (S n))|]; reflexivity.
-    + destruct (src_open (set_w TBroken s)); [destruct (F (S n))|]; reflexivity.
-    + reflexivity.
-  - destruct (src_open s); [destruct (F n)|]; reflexivity.
+  crush_st s; cbn; try discriminate; intros _; un_cases F n; cbn; (split; [|reflexivity]); fa;
+    unfold core_eq, wname; cbn; repeat split.
 Qed.
 
-(** an unwinding that is not killed ends in an exception *)
-Lemma unwind_outcome F n s e :
-  outc (unwind F n s e) = Crashed \/ exists e', outc (unwind F n s e) = Raised e'.
+(** inside it, an unwinding that ends in an exception and whose remove did not fail has
+    removed the temp file *)
+Lemma unwind_removed F n s e t e' :
+  in_try s = true -> wname s = Some t ->
+  outc (unwind F n s e) = Raised e' -> rmfail (unwind F n s e) = false ->
+  sd (final (unwind F n s e)) = dremove t (sd s).
 Proof.
-  unfold unwind.
-  destruct (wh_is_open s).
-  - destruct (F n); simpl.
-    + destruct (src_open (set_w TClosed s)); [destruct (F (S n))|]; simpl; eauto.
-    + destruct (src_open (set_w TBroken s)); [destruct (F (S n))|]; simpl; eauto.
-    + eauto.
-  - destruct (src_open s); [destruct (F n)|]; simpl; eauto.
+  crush_st s; unfold wname; cbn; try discriminate; intros _ Ht; inversion Ht; subst;
+    un_cases F n; cbn; intros; try discriminate; reflexivity.
+Qed.
+
+Lemma unwind_nofault F n s e : (forall i, F i = NoFault) ->
+  outc (unwind F n s e) = Raised e /\ rmfail (unwind F n s e) = false.
+Proof.
+  intros H. unfold unwind, unwind2, unwind3. rewrite !H.
+  crush_st s; cbn; rewrite ?H; split; reflexivity.
 Qed.
 
 (** * run_ops: generic facts *)
@@ -184,6 +187,9 @@ Proof. unfold all_states, prepend; simpl. now rewrite map_app, app_assoc. Qed.
 Lemma all_states_with_stop x r : all_states (with_stop x r) = all_states r.
 Proof. reflexivity. Qed.
 
+Lemma all_states_with_rmfail r : all_states (with_rmfail r) = all_states r.
+Proof. reflexivity. Qed.
+
 Lemma final_in_all_states r : In (final r) (all_states r).
 Proof. unfold all_states. apply in_or_app. right. now left. Qed.
 
@@ -191,12 +197,6 @@ Lemma handler_not_done nm F o n s e : outc (handler nm F o n s e) <> Done.
 Proof.
   destruct o; simpl; try apply unwind_not_done.
   destruct (F n); simpl; try apply unwind_not_done. discriminate.
-Qed.
-
-Lemma handler_stop nm F o n s e : stop (handler nm F o n s e) = None.
-Proof.
-  destruct o; simpl; try apply unwind_stop.
-  destruct (F n); simpl; try apply unwind_stop. reflexivity.
 Qed.
 
 Lemma handler_plain nm F o n s e :
@@ -230,13 +230,14 @@ Qed.
 
 Lemma run_ops_done nm F ops : forall n s,
   outc (run_ops nm F ops n s) = Done ->
-  stop (run_ops nm F ops n s) = None /\ Forall (fun o => visible o = true) ops.
+  stop (run_ops nm F ops n s) = None /\ Forall (fun o => visible o = true) ops /\
+  final (run_ops nm F ops n s) = fold_left (fun x o => exec nm o x) ops s.
 Proof.
   induction ops as [|o ops IH]; intros n s; cbn [run_ops].
-  - intros _. split; [reflexivity | constructor].
+  - intros _. repeat split; constructor.
   - destruct (visible o) eqn:V.
-    + destruct (F n); cbn [outc with_stop prepend stop].
-      * intros H. destruct (IH _ _ H). split; auto.
+    + destruct (F n); cbn [outc with_stop prepend stop final fold_left].
+      * intros H. destruct (IH _ _ H) as (A & B & C). repeat split; auto.
       * intros H. exfalso. eapply handler_not_done; eauto.
       * discriminate.
     + cbn [outc with_stop]. intros H. exfalso. eapply unwind_not_done; eauto.
@@ -255,6 +256,20 @@ Proof.
     + cbn [with_stop stop]. intros H. inversion H; subst. now left.
 Qed.
 
+(** a run that ends in an exception names the main-line step that raised *)
+Lemma run_ops_raised_stop nm F ops : forall n s e,
+  outc (run_ops nm F ops n s) = Raised e -> exists k o, stop (run_ops nm F ops n s) = Some (k, o).
+Proof.
+  induction ops as [|o' ops IH]; intros n s e; cbn [run_ops].
+  - discriminate.
+  - destruct (visible o').
+    + destruct (F n); cbn [with_stop prepend stop outc].
+      * apply IH.
+      * eauto.
+      * discriminate.
+    + cbn [with_stop stop]. eauto.
+Qed.
+
 (** ** steps that never touch the directory *)
 Definition nosd (o : op) : bool :=
   match o with OpenRead _ | LoadFail | CloseSrc | CloseW => true | _ => false end.
@@ -262,7 +277,15 @@ Definition nosd (o : op) : bool :=
 Lemma exec_nosd nm o s : nosd o = true -> core_eq s (exec nm o s).
 Proof.
   destruct o; simpl; try discriminate; intros _;
-    first [apply core_set_src | apply core_set_w | apply core_eq_refl].
+    first [apply core_set_src | apply core_eq_refl
+          | eapply core_eq_trans; [apply core_set_w | apply core_set_try]].
+Qed.
+
+Lemma fold_nosd nm ops : Forall (fun o => nosd o = true) ops ->
+  forall s, core_eq s (fold_left (fun x o => exec nm o x) ops s).
+Proof.
+  induction 1 as [|o ops Ho _ IH]; intros s; simpl; [apply core_eq_refl|].
+  eapply core_eq_trans; [apply exec_nosd; exact Ho | apply IH].
 Qed.
 
 Lemma fail_effect_core o s : core_eq s (fail_effect o s).
@@ -270,119 +293,169 @@ Proof.
   destruct o; simpl; first [apply core_set_src | apply core_set_w | apply core_eq_refl].
 Qed.
 
-Lemma Forall_core_trans s s1 l : core_eq s s1 -> Forall (core_eq s1) l -> Forall (core_eq s) l.
+Lemma fail_effect_try o s : in_try (fail_effect o s) = in_try s.
 Proof.
-  intros H. apply Forall_impl. intros a Ha. eapply core_eq_trans; eauto.
+  destruct o; simpl; try reflexivity. unfold set_w. destruct (wh s) as [[t x]|]; reflexivity.
 Qed.
 
-Lemma run_nosd nm F ops : Forall (fun o => nosd o = true) ops ->
-  forall n s, Forall (core_eq s) (all_states (run_ops nm F ops n s)).
+(** before the temp file exists: open / load / close of the source.  From a state outside the
+    try block every state keeps the directory, and no remove is ever attempted *)
+Definition classA (o : op) : bool :=
+  match o with OpenRead _ | LoadFail | CloseSrc => true | _ => false end.
+
+Definition calm (s s' : st) : Prop := core_eq s s' /\ in_try s' = false.
+
+Lemma calm_trans s s1 s2 : calm s s1 -> calm s1 s2 -> calm s s2.
+Proof. intros (A & _) (B & C). split; auto. eapply core_eq_trans; eauto. Qed.
+
+Lemma Forall_calm_trans s s1 l : calm s s1 -> Forall (calm s1) l -> Forall (calm s) l.
+Proof. intros H. apply Forall_impl. intros a Ha. eapply calm_trans; eauto. Qed.
+
+Lemma exec_classA nm o s : classA o = true -> in_try s = false -> calm s (exec nm o s).
 Proof.
-  induction 1 as [|o ops Ho Hops IH]; intros n s; cbn [run_ops].
-  - unfold all_states; simpl. repeat constructor.
-  - destruct (visible o).
+  destruct o; simpl; try discriminate; intros _ H; split; auto;
+    first [apply core_set_src | apply core_eq_refl].
+Qed.
+
+Lemma run_classA nm F ops : Forall (fun o => classA o = true) ops ->
+  forall n s, in_try s = false ->
+  Forall (calm s) (all_states (run_ops nm F ops n s)) /\ rmfail (run_ops nm F ops n s) = false.
+Proof.
+  induction 1 as [|o ops Ho Hops IH]; intros n s Hs; cbn [run_ops].
+  - split; [|reflexivity]. unfold all_states; simpl. fa. split; [apply core_eq_refl | exact Hs].
+  - assert (R : calm s s) by (split; [apply core_eq_refl | exact Hs]).
+    destruct (visible o).
     + destruct (F n).
-      * rewrite all_states_prepend. simpl. constructor; [apply core_eq_refl|].
-        eapply Forall_core_trans; [apply exec_nosd; exact Ho | apply IH].
-      * rewrite all_states_with_stop, all_states_prepend. simpl.
-        constructor; [apply core_eq_refl|].
-        rewrite handler_plain by (intros d ->; discriminate).
-        eapply Forall_core_trans; [apply fail_effect_core | apply unwind_core].
-      * unfold all_states; simpl. repeat constructor.
-    + rewrite all_states_with_stop. apply unwind_core.
+      * pose proof (exec_classA nm o s Ho Hs) as E.
+        destruct (IH (S n) (exec nm o s) (proj2 E)) as [I1 I2]. split; [|exact I2].
+        rewrite all_states_prepend. simpl. constructor; [exact R|].
+        eapply Forall_calm_trans; eauto.
+      * rewrite handler_plain by (intros d ->; discriminate).
+        assert (Hf : in_try (fail_effect o s) = false) by (now rewrite fail_effect_try).
+        destruct (unwind_notry F (S n) (fail_effect o s) (EInj n) Hf) as [U1 U2].
+        split; [|exact U2].
+        rewrite all_states_with_stop, all_states_prepend. simpl. constructor; [exact R|].
+        eapply Forall_calm_trans; [split; [apply fail_effect_core | exact Hf] | exact U1].
+      * split; [|reflexivity]. unfold all_states; simpl. fa; exact R.
+    + destruct (unwind_notry F n s (data_exn o) Hs) as [U1 U2]. split; [|exact U2].
+      rewrite all_states_with_stop. exact U1.
 Qed.
 
-(** ** steps between the creation of the temp file and the rename: they only ever touch the
-    file behind the write handle, which keeps existing *)
+(** ** steps between the creation of the temp file and the rename: they, and the clean-up
+    after them, only ever touch the file behind the write handle *)
 Definition classB (o : op) : bool :=
   match o with Write _ | FmtFail | CloseW | CloseSrc => true | _ => false end.
 
 Definition relB (t : name) (s s' : st) : Prop :=
   nrep s' = nrep s /\ wname s' = Some t /\
-  (forall q, q <> t -> lookup q (sd s') = lookup q (sd s)) /\ lookup t (sd s') <> None.
+  (forall q, q <> t -> lookup q (sd s') = lookup q (sd s)).
 
 Lemma relB_core t s s1 s2 : relB t s s1 -> core_eq s1 s2 -> relB t s s2.
 Proof.
-  intros (A & B & C & D) (E & G & H). repeat split.
+  intros (A & B & C) (E & G & H). repeat split.
   - congruence.
   - congruence.
   - intros q Hq. rewrite E. auto.
-  - rewrite E. exact D.
 Qed.
 
 Lemma relB_trans t s s1 s2 : relB t s s1 -> relB t s1 s2 -> relB t s s2.
 Proof.
-  intros (A & B & C & D) (A' & B' & C' & D'). repeat split; try congruence.
+  intros (A & B & C) (A' & B' & C'). repeat split; try congruence.
   intros q Hq. rewrite C' by auto. auto.
 Qed.
 
-Lemma relB_refl t s : wname s = Some t -> lookup t (sd s) <> None -> relB t s s.
+Lemma relB_refl t s : wname s = Some t -> relB t s s.
 Proof. intros. repeat split; auto. Qed.
 
-Lemma exec_classB nm o s t :
-  classB o = true -> wname s = Some t -> lookup t (sd s) <> None -> relB t s (exec nm o s).
+Lemma relB_un t s s' : wname s = Some t -> un_rel s s' -> relB t s s'.
 Proof.
-  intros Ho Hw Ht.
+  intros Hw (A & B & [C|(_ & t' & C1 & C2)]); repeat split; try congruence.
+  intros q Hq. rewrite C2. assert (t' = t) by congruence. subst.
+  apply lookup_dremove_other. congruence.
+Qed.
+
+Lemma exec_classB nm o s t :
+  classB o = true -> wname s = Some t -> relB t s (exec nm o s).
+Proof.
+  intros Ho Hw.
   destruct o; simpl in Ho; try discriminate.
   - (* CloseSrc *) eapply relB_core; [apply relB_refl; auto | apply core_set_src].
   - (* FmtFail *) apply relB_refl; auto.
   - (* Write *)
     unfold wname in Hw. simpl. destruct (wh s) as [[t' x]|] eqn:W; [|discriminate].
     inversion Hw; subst t'.
-    destruct (lookup t (sd s)) as [b|] eqn:L; [|congruence].
+    destruct (lookup t (sd s)) as [b|] eqn:L; [|apply relB_refl; unfold wname; now rewrite W].
     unfold relB, set_sd, wname; simpl. rewrite W. repeat split.
-    + intros q Hq. apply lookup_dset_other. congruence.
-    + rewrite lookup_dset_same. discriminate.
-  - (* CloseW *) eapply relB_core; [apply relB_refl; auto | apply core_set_w].
+    intros q Hq. apply lookup_dset_other. congruence.
+  - (* CloseW *) eapply relB_core; [apply relB_refl; auto | apply (exec_nosd nm CloseW s eq_refl)].
 Qed.
 
 Lemma Forall_relB_trans t s s1 l : relB t s s1 -> Forall (relB t s1) l -> Forall (relB t s) l.
 Proof. intros H. apply Forall_impl. intros a Ha. eapply relB_trans; eauto. Qed.
 
-Lemma Forall_relB_core t s s1 l : relB t s s1 -> Forall (core_eq s1) l -> Forall (relB t s) l.
-Proof. intros H. apply Forall_impl. intros a Ha. eapply relB_core; eauto. Qed.
+Lemma wname_fail_effect o s : wname (fail_effect o s) = wname s.
+Proof. destruct (fail_effect_core o s) as (_ & _ & H). exact H. Qed.
 
 Lemma run_classB nm F t ops : Forall (fun o => classB o = true) ops ->
-  forall n s, wname s = Some t -> lookup t (sd s) <> None ->
+  forall n s, wname s = Some t ->
   Forall (relB t s) (all_states (run_ops nm F ops n s)).
 Proof.
-  induction 1 as [|o ops Ho Hops IH]; intros n s Hw Ht; cbn [run_ops].
-  - unfold all_states; simpl. repeat constructor; auto.
-  - pose proof (relB_refl t s Hw Ht) as R.
+  induction 1 as [|o ops Ho Hops IH]; intros n s Hw; cbn [run_ops].
+  - unfold all_states; simpl. fa. now apply relB_refl.
+  - pose proof (relB_refl t s Hw) as R.
     destruct (visible o).
     + destruct (F n).
       * rewrite all_states_prepend. simpl. constructor; [exact R|].
-        pose proof (exec_classB nm o s t Ho Hw Ht) as E.
+        pose proof (exec_classB nm o s t Ho Hw) as E.
         eapply Forall_relB_trans; [exact E|].
-        destruct E as (_ & E2 & _ & E4). apply IH; auto.
+        destruct E as (_ & E2 & _). apply IH; auto.
       * rewrite all_states_with_stop, all_states_prepend. simpl. constructor; [exact R|].
         rewrite handler_plain by (intros d ->; discriminate).
-        eapply Forall_relB_core; [exact R|].
-        eapply Forall_core_trans; [apply fail_effect_core | apply unwind_core].
-      * unfold all_states; simpl. repeat constructor; auto.
-    + rewrite all_states_with_stop. eapply Forall_relB_core; [exact R | apply unwind_core].
+        eapply (Forall_relB_trans t s (fail_effect o s));
+          [eapply relB_core; [exact R | apply fail_effect_core]|].
+        eapply Forall_impl; [|apply unwind_states].
+        intros a Ha. apply relB_un; auto. now rewrite wname_fail_effect.
+      * unfold all_states; simpl. fa; auto.
+    + rewrite all_states_with_stop.
+      eapply Forall_impl; [|apply unwind_states]. intros a Ha. apply relB_un; auto.
 Qed.
 
-(** ** the write loop: if it completes, the temp file holds every chunk, in order *)
+(** ** the write loop, then the closes.  [tl] is the (possibly empty) run of source closes *)
 Lemma append_nil_r (s : string) : s ++ "" = s.
 Proof. induction s; simpl; congruence. Qed.
 
 Lemma append_assoc (a b c : string) : (a ++ b) ++ c = a ++ (b ++ c).
 Proof. induction a; simpl; congruence. Qed.
 
-Lemma run_items_done nm F tail : Forall (fun o => nosd o = true) tail ->
+Definition closes (tl : list op) : Prop := Forall (fun o => o = CloseSrc) tl.
+
+Lemma closes_nosd tl : closes tl -> Forall (fun o => nosd o = true) (CloseW :: tl).
+Proof.
+  intros H. constructor; [reflexivity|]. eapply Forall_impl; [|exact H]. intros o ->. reflexivity.
+Qed.
+
+Lemma fold_closes_try nm tl : closes tl -> forall s, in_try s = false ->
+  in_try (fold_left (fun x o => exec nm o x) tl s) = false.
+Proof.
+  induction 1 as [|o tl -> _ IH]; intros s Hs; simpl; auto.
+Qed.
+
+(** if it completes, the temp file holds every chunk, in order, and the try block is left *)
+Lemma run_items_done nm F tl : closes tl ->
   forall its n s t b0,
   wname s = Some t -> lookup t (sd s) = Some b0 ->
-  outc (run_ops nm F (map item_op its ++ tail) n s) = Done ->
+  outc (run_ops nm F (map item_op its ++ CloseW :: tl) n s) = Done ->
   exists c, concat_items its = Some c /\
-            lookup t (sd (final (run_ops nm F (map item_op its ++ tail) n s))) = Some (b0 ++ c) /\
-            wname (final (run_ops nm F (map item_op its ++ tail) n s)) = Some t.
+    lookup t (sd (final (run_ops nm F (map item_op its ++ CloseW :: tl) n s))) = Some (b0 ++ c) /\
+    wname (final (run_ops nm F (map item_op its ++ CloseW :: tl) n s)) = Some t /\
+    in_try (final (run_ops nm F (map item_op its ++ CloseW :: tl) n s)) = false.
 Proof.
-  intros Htail. induction its as [|[c|] its IH]; intros n s t b0 Hw Ht Hd.
-  - simpl in *. exists "". split; [reflexivity|].
-    pose proof (run_nosd nm F tail Htail n s) as H.
-    rewrite Forall_forall in H. destruct (H _ (final_in_all_states _)) as (E1 & _ & E3).
-    rewrite E1, E3, append_nil_r. auto.
+  intros Htl. induction its as [|[c|] its IH]; intros n s t b0 Hw Ht Hd.
+  - cbn [map app] in *. exists "". split; [reflexivity|].
+    destruct (run_ops_done nm F _ n s Hd) as (_ & _ & E). rewrite E.
+    destruct (fold_nosd nm _ (closes_nosd tl Htl) s) as (E1 & _ & E3).
+    rewrite E1, E3, append_nil_r. repeat split; auto.
+    cbn [fold_left]. apply fold_closes_try; auto.
   - cbn [map app item_op run_ops visible] in *.
     destruct (F n).
     + cbn [outc prepend final] in *.
@@ -392,7 +465,7 @@ Proof.
         inversion Hw; subst t'. rewrite Ht. unfold set_sd, wname; simpl. rewrite W.
         split; [reflexivity | apply lookup_dset_same]. }
       destruct W as [W1 W2].
-      destruct (IH _ _ _ _ W1 W2 Hd) as (c' & C1 & C2 & C3).
+      destruct (IH _ _ _ _ W1 W2 Hd) as (c' & C1 & C2 & C3 & C4).
       exists (c ++ c'). cbn [concat_items]. rewrite C1. split; [reflexivity|].
       rewrite C2, append_assoc. auto.
     + cbn [outc with_stop prepend] in Hd. exfalso. eapply handler_not_done; eauto.
@@ -401,17 +474,55 @@ Proof.
     exfalso. eapply unwind_not_done; eauto.
 Qed.
 
-(** * One in-place rewrite: A ++ [MkTemp] ++ (writes ++ closes) ++ [Replace] *)
-Definition classA (o : op) : bool :=
-  match o with OpenRead _ | LoadFail | CloseSrc => true | _ => false end.
-Definition tailT (o : op) : bool :=
-  match o with CloseW | CloseSrc => true | _ => false end.
-(** where the main line can fail: before the temp file exists ... *)
-Definition early (o : op) : bool :=
-  match o with OpenRead _ | LoadFail | MkTemp _ => true | _ => false end.
-(** ... or while it is being filled and closed *)
-Definition late (o : op) : bool :=
-  match o with Write _ | FmtFail | CloseW => true | _ => false end.
+Lemma in_try_write nm c s : in_try (exec nm (Write c) s) = in_try s.
+Proof.
+  simpl. destruct (wh s) as [[t x]|]; auto. destruct (lookup t (sd s)); auto.
+Qed.
+
+Lemma wname_write nm c s : wname (exec nm (Write c) s) = wname s.
+Proof.
+  unfold wname. simpl. destruct (wh s) as [[t x]|] eqn:W; [|now rewrite W].
+  destruct (lookup t (sd s)); simpl; now rewrite W.
+Qed.
+
+(** if it ends in an exception - formatting, a write, the closing flush - and the remove in
+    the except clause did not itself fail, the temp file is gone.  (A failing close of the
+    read-only source handle comes after the try block: excluded.) *)
+Lemma run_fill_raise nm F tl : closes tl ->
+  forall its n s t e,
+  in_try s = true -> wname s = Some t ->
+  outc (run_ops nm F (map item_op its ++ CloseW :: tl) n s) = Raised e ->
+  rmfail (run_ops nm F (map item_op its ++ CloseW :: tl) n s) = false ->
+  (forall k, stop (run_ops nm F (map item_op its ++ CloseW :: tl) n s) <> Some (k, CloseSrc)) ->
+  lookup t (sd (final (run_ops nm F (map item_op its ++ CloseW :: tl) n s))) = None.
+Proof.
+  intros Htl. induction its as [|[c|] its IH]; intros n s t e Hi Hw Ho Hr Hs.
+  - cbn [map app run_ops visible] in *. destruct (F n).
+    + (* the temp file is closed: what can still raise is a close of the source *)
+      cbn [prepend outc stop] in *. exfalso.
+      destruct (run_ops_raised_stop _ _ _ _ _ _ Ho) as (k & o & Hst).
+      pose proof (run_ops_stop_in _ _ _ _ _ _ _ Hst) as Hin.
+      unfold closes in Htl. rewrite Forall_forall in Htl. rewrite (Htl _ Hin) in Hst.
+      eapply Hs; eauto.
+    + cbn [with_stop prepend outc rmfail final handler] in *.
+      erewrite unwind_removed; eauto.
+      * destruct (fail_effect_core CloseW s) as (E & _). rewrite E. apply lookup_dremove_same.
+      * now rewrite fail_effect_try.
+      * now rewrite wname_fail_effect.
+    + discriminate.
+  - cbn [map app item_op run_ops visible] in *. destruct (F n).
+    + cbn [prepend outc stop rmfail final] in *.
+      eapply IH; eauto.
+      * now rewrite in_try_write.
+      * now rewrite wname_write.
+    + cbn [with_stop prepend outc rmfail final handler fail_effect] in *.
+      erewrite unwind_removed; eauto. apply lookup_dremove_same.
+    + discriminate.
+  - cbn [map app item_op run_ops visible with_stop outc rmfail final] in *.
+    erewrite unwind_removed; eauto. apply lookup_dremove_same.
+Qed.
+
+(** * One in-place rewrite: A ++ [MkTemp] ++ (writes ++ CloseW :: closes) ++ [Replace] *)
 
 (** before the rename: nothing but the temp name [t] differs from the start *)
 Definition phaseB (t : name) (s0 s : st) : Prop :=
@@ -432,13 +543,11 @@ Definition okst (s : st) : Prop :=
 
 Record Spec (r : result) : Prop := mkSpec {
   sp_states : Forall okst (all_states r);
-  sp_done : outc r = Done -> exists nw, nwo = Some nw /\ phaseC src nw s0 (final r);
+  sp_done : outc r = Done ->
+            exists nw, nwo = Some nw /\ phaseC src nw s0 (final r) /\ in_try (final r) = false;
   sp_notdone : outc r <> Done -> phaseB t s0 (final r);
-  sp_early : forall k o, stop r = Some (k, o) -> early o = true -> sd (final r) = sd s0;
-  sp_replace : forall k d, stop r = Some (k, Replace d) -> F (S k) = NoFault ->
-               deq (sd (final r)) (sd s0);
-  sp_late : forall k o, stop r = Some (k, o) -> late o = true ->
-            lookup t (sd (final r)) <> None
+  sp_raise : forall e, outc r = Raised e -> rmfail r = false ->
+             (forall k, stop r <> Some (k, CloseSrc)) -> deq (sd (final r)) (sd s0)
 }.
 
 Lemma t_neq_src : t <> src.
@@ -451,49 +560,59 @@ Qed.
 
 Lemma phaseB_relB s s' : phaseB t s0 s -> relB t s s' -> phaseB t s0 s'.
 Proof.
-  intros (A & B) (E1 & _ & E3 & _). split; [congruence|].
+  intros (A & B) (E1 & _ & E3). split; [congruence|].
   intros q Hq. rewrite E3 by auto. auto.
+Qed.
+
+(** phase B with the temp name absent is the start directory *)
+Lemma phaseB_gone s : phaseB t s0 s -> lookup t (sd s) = None -> deq (sd s) (sd s0).
+Proof.
+  intros (_ & B) H q. destruct (String.eqb q t) eqn:E.
+  - apply String.eqb_eq in E; subst q. now rewrite H, Hfresh.
+  - apply B. intros ->. now rewrite String.eqb_refl in E.
 Qed.
 
 Lemma Spec_prepend h r :
   Forall (phaseB t s0) (map snd h) -> Spec r -> Spec (prepend h r).
 Proof.
-  intros Hh [A B C D E G]. constructor; auto.
+  intros Hh [A B C D]. constructor; auto.
   rewrite all_states_prepend. apply Forall_app. split; [|exact A].
   eapply Forall_impl; [|exact Hh]. intros a Ha. now left.
 Qed.
 
-(** a run whose states all keep the directory of a phase-B state, and that does not complete *)
+(** a run whose states all keep the (start) directory of [sB], and that does not complete *)
 Lemma Spec_stuck sB r :
-  phaseB t s0 sB -> Forall (core_eq sB) (all_states r) -> outc r <> Done ->
-  (forall k o, stop r = Some (k, o) -> early o = true -> sd sB = sd s0) ->
-  (forall k d, stop r = Some (k, Replace d) -> False) ->
-  (forall k o, stop r = Some (k, o) -> late o = true -> lookup t (sd sB) <> None) ->
-  Spec r.
+  sd sB = sd s0 -> nrep sB = nrep s0 ->
+  Forall (core_eq sB) (all_states r) -> outc r <> Done -> Spec r.
 Proof.
-  intros HB Hall Hnd He Hr Hl.
+  intros Hd Hn Hall Hnd.
+  assert (HB : phaseB t s0 sB) by (split; [exact Hn | intros q _; now rewrite Hd]).
   assert (Hfin : core_eq sB (final r)).
   { rewrite Forall_forall in Hall. apply Hall, final_in_all_states. }
   constructor.
   - eapply Forall_impl; [|exact Hall]. intros a Ha. left. eapply phaseB_core; eauto.
   - intros H. contradiction.
   - intros _. eapply phaseB_core; eauto.
-  - intros k o H1 H2. destruct Hfin as (E & _). rewrite E. eauto.
-  - intros k d H1 _. exfalso. eauto.
-  - intros k o H1 H2. destruct Hfin as (E & _). rewrite E. eauto.
+  - intros e _ _ _. destruct Hfin as (E & _). rewrite E, Hd. apply deq_refl.
 Qed.
+
+Lemma Forall_calm_core s l : Forall (calm s) l -> Forall (core_eq s) l.
+Proof. apply Forall_impl. intros a [H _]. exact H. Qed.
 
 (** the rename step *)
 Lemma spec_replace n sB c :
   nwo = Some c -> phaseB t s0 sB -> wname sB = Some t -> lookup t (sd sB) = Some c ->
+  in_try sB = false ->
   Spec (run_ops nm F [Replace src] n sB).
 Proof.
-  intros Hn HB Hw Ht.
+  intros Hn HB Hw Ht Hi.
   cbn [run_ops visible]. destruct (F n) eqn:Fn.
   - (* the rename happens *)
-    assert (HC : phaseC src c s0 (exec nm (Replace src) sB)).
+    assert (HC : phaseC src c s0 (exec nm (Replace src) sB) /\
+                 in_try (exec nm (Replace src) sB) = false).
     { unfold wname in Hw. simpl. destruct (wh sB) as [[t' x]|] eqn:W; [|discriminate].
       inversion Hw; subst t'. rewrite Ht. destruct HB as (B1 & B2).
+      split; [|exact Hi].
       split; simpl; [congruence|].
       intros q. rewrite lookup_dremove, lookup_dset.
       destruct (String.eqb q t) eqn:Eq.
@@ -503,95 +622,92 @@ Proof.
         + now rewrite Hfresh.
       - destruct (String.eqb q src); [reflexivity|].
         apply B2. intros ->. now rewrite String.eqb_refl in Eq. }
-    constructor; cbn [prepend run_ops final outc stop].
+    destruct HC as [HC HCi].
+    constructor; cbn [prepend run_ops final outc stop rmfail].
     + unfold all_states; simpl. constructor; [now left|].
       constructor; [|constructor]. right. eauto.
     + intros _. eauto.
     + intros H. congruence.
-    + discriminate.
-    + discriminate.
     + discriminate.
   - (* it raises: move_temp_file's handler *)
     cbn [fail_effect handler].
     destruct (F (S n)) eqn:Fn1.
     + (* the temp is removed *)
       set (sR := exec nm Remove sB).
-      assert (HR : phaseB t s0 sR /\ deq (sd sR) (sd s0)).
+      assert (HR : phaseB t s0 sR /\ lookup t (sd sR) = None /\ in_try sR = false).
       { unfold sR, wname in *. simpl. destruct (wh sB) as [[t' x]|] eqn:W; [|discriminate].
-        inversion Hw; subst t'. destruct HB as (B1 & B2). unfold phaseB, deq, set_sd; simpl. split.
-        - split; [exact B1|]. intros q Hq. rewrite lookup_dremove_other by congruence. auto.
-        - intros q. rewrite lookup_dremove. destruct (String.eqb q t) eqn:Eq.
-          + apply String.eqb_eq in Eq; subst q. now rewrite Hfresh.
-          + apply B2. intros ->. now rewrite String.eqb_refl in Eq. }
-      destruct HR as [HR1 HR2].
-      pose proof (unwind_core F (S (S n)) sR (EInj n)) as U.
+        inversion Hw; subst t'. destruct HB as (B1 & B2). unfold phaseB, set_sd; simpl.
+        split; [|split; [apply lookup_dremove_same | exact Hi]].
+        split; [exact B1|]. intros q Hq. rewrite lookup_dremove_other by congruence. auto. }
+      destruct HR as (HR1 & HR2 & HR3).
+      destruct (unwind_notry F (S (S n)) sR (EInj n) HR3) as [U _].
+      apply Forall_calm_core in U.
       assert (Hfin : core_eq sR (final (unwind F (S (S n)) sR (EInj n)))).
       { rewrite Forall_forall in U. apply U, final_in_all_states. }
-      constructor; cbn [with_stop prepend final outc stop].
+      constructor; cbn [with_stop prepend final outc stop rmfail].
       * rewrite all_states_with_stop, !all_states_prepend. simpl.
         constructor; [now left|]. constructor; [now left|].
         eapply Forall_impl; [|exact U]. intros a Ha. left. eapply phaseB_core; eauto.
       * intros H. exfalso. eapply unwind_not_done; eauto.
       * intros _. eapply phaseB_core; eauto.
-      * intros k o H. inversion H; subst. discriminate.
-      * intros k d H _. destruct Hfin as (E & _). rewrite E. exact HR2.
-      * intros k o H. inversion H; subst. discriminate.
+      * intros e _ _ _. apply phaseB_gone; [eapply phaseB_core; eauto|].
+        destruct Hfin as (E & _). now rewrite E.
     + (* the remove fails too: logged, the first error propagates, the temp stays *)
-      pose proof (unwind_core F (S (S n)) sB (EInj n)) as U.
+      destruct (unwind_notry F (S (S n)) sB (EInj n) Hi) as [U _].
+      apply Forall_calm_core in U.
       assert (Hfin : core_eq sB (final (unwind F (S (S n)) sB (EInj n)))).
       { rewrite Forall_forall in U. apply U, final_in_all_states. }
-      constructor; cbn [with_stop prepend final outc stop].
-      * rewrite all_states_with_stop, !all_states_prepend. simpl.
+      constructor; cbn [with_stop with_rmfail prepend final outc stop rmfail].
+      * repeat first [rewrite all_states_with_stop | rewrite all_states_prepend
+                     | rewrite all_states_with_rmfail]. simpl.
         constructor; [now left|]. constructor; [now left|].
         eapply Forall_impl; [|exact U]. intros a Ha. left. eapply phaseB_core; eauto.
       * intros H. exfalso. eapply unwind_not_done; eauto.
       * intros _. eapply phaseB_core; eauto.
-      * intros k o H. inversion H; subst. discriminate.
-      * intros k d H H2. inversion H; subst. congruence.
-      * intros k o H. inversion H; subst. discriminate.
+      * discriminate.
     + (* killed inside the handler *)
-      constructor; cbn [with_stop prepend final outc stop].
+      constructor; cbn [with_stop prepend final outc stop rmfail].
       * unfold all_states; simpl. fa; now left.
       * discriminate.
       * intros _. exact HB.
-      * intros k o H. inversion H; subst. discriminate.
-      * intros k d H H2. inversion H; subst. congruence.
-      * intros k o H. inversion H; subst. discriminate.
+      * discriminate.
   - (* killed at the rename *)
     constructor; cbn [final outc stop].
     + unfold all_states; simpl. fa; now left.
     + discriminate.
     + intros _. exact HB.
     + discriminate.
-    + discriminate.
-    + discriminate.
 Qed.
 
 (** filling and closing the temp file, then the rename *)
-Lemma spec_fill its tail n s2 :
-  Forall (fun o => tailT o = true) tail ->
+Lemma spec_fill its tl n s2 :
+  closes tl ->
   nwo = concat_items its ->
-  phaseB t s0 s2 -> wname s2 = Some t -> lookup t (sd s2) = Some "" ->
-  Spec (run_ops nm F ((map item_op its ++ tail) ++ [Replace src]) n s2).
+  phaseB t s0 s2 -> wname s2 = Some t -> lookup t (sd s2) = Some "" -> in_try s2 = true ->
+  Spec (run_ops nm F ((map item_op its ++ CloseW :: tl) ++ [Replace src]) n s2).
 Proof.
-  intros Htail Hn HB Hw Ht.
-  assert (HclB : Forall (fun o => classB o = true) (map item_op its ++ tail)).
+  intros Htl Hn HB Hw Ht Hi.
+  assert (HclB : Forall (fun o => classB o = true) (map item_op its ++ CloseW :: tl)).
   { apply Forall_app. split.
     - rewrite Forall_forall. intros o Ho. apply in_map_iff in Ho.
       destruct Ho as ([c|] & <- & _); reflexivity.
-    - eapply Forall_impl; [|exact Htail]. intros o; destruct o; simpl; congruence. }
-  assert (Hnosd : Forall (fun o => nosd o = true) tail).
-  { eapply Forall_impl; [|exact Htail]. intros o; destruct o; simpl; congruence. }
-  assert (Ht' : lookup t (sd s2) <> None) by congruence.
-  pose proof (run_classB nm F t _ HclB n s2 Hw Ht') as HBs.
+    - constructor; [reflexivity|]. eapply Forall_impl; [|exact Htl]. intros o ->. reflexivity. }
+  pose proof (run_classB nm F t _ HclB n s2 Hw) as HBs.
   rewrite run_ops_app.
-  set (rB := run_ops nm F (map item_op its ++ tail) n s2) in *.
+  set (rB := run_ops nm F (map item_op its ++ CloseW :: tl) n s2) in *.
   assert (Hfin : relB t s2 (final rB)).
   { rewrite Forall_forall in HBs. apply HBs, final_in_all_states. }
+  assert (Hstuck : outc rB <> Done -> Spec rB).
+  { intros Hnd. constructor.
+    - eapply Forall_impl; [|exact HBs]. intros a Ha. left. eapply phaseB_relB; eauto.
+    - congruence.
+    - intros _. eapply phaseB_relB; eauto.
+    - intros e He Hr Hs. apply phaseB_gone; [eapply phaseB_relB; eauto|].
+      unfold rB in *. eapply run_fill_raise; eauto. }
   destruct (outc rB) eqn:Ho.
   - (* the temp file is complete and closed *)
-    destruct (run_items_done nm F tail Hnosd its n s2 t "" Hw Ht Ho) as (c & C1 & C2 & C3).
-    fold rB in C2, C3. simpl in C2.
+    destruct (run_items_done nm F tl Htl its n s2 t "" Hw Ht Ho) as (c & C1 & C2 & C3 & C4).
+    fold rB in C2, C3, C4. simpl in C2.
     apply Spec_prepend.
     + assert (Hall : Forall (relB t s2) (map snd (hist rB))).
       { unfold all_states in HBs. apply Forall_app in HBs. tauto. }
@@ -599,114 +715,70 @@ Proof.
     + eapply spec_replace; eauto.
       * congruence.
       * eapply phaseB_relB; eauto.
-  - (* it raised *)
-    constructor.
-    + eapply Forall_impl; [|exact HBs]. intros a Ha. left. eapply phaseB_relB; eauto.
-    + congruence.
-    + intros _. eapply phaseB_relB; eauto.
-    + intros k o H1 H2. apply run_ops_stop_in in H1.
-      rewrite Forall_forall in HclB. specialize (HclB _ H1).
-      destruct o; simpl in *; discriminate.
-    + intros k d H1 _. apply run_ops_stop_in in H1.
-      rewrite Forall_forall in HclB. specialize (HclB _ H1). discriminate.
-    + intros k o _ _. destruct Hfin as (_ & _ & _ & E). exact E.
-  - (* killed *)
-    constructor.
-    + eapply Forall_impl; [|exact HBs]. intros a Ha. left. eapply phaseB_relB; eauto.
-    + congruence.
-    + intros _. eapply phaseB_relB; eauto.
-    + intros k o H1 H2. apply run_ops_stop_in in H1.
-      rewrite Forall_forall in HclB. specialize (HclB _ H1).
-      destruct o; simpl in *; discriminate.
-    + intros k d H1 _. apply run_ops_stop_in in H1.
-      rewrite Forall_forall in HclB. specialize (HclB _ H1). discriminate.
-    + intros k o _ _. destruct Hfin as (_ & _ & _ & E). exact E.
-  - (* not produced by run_ops, but harmless *)
-    constructor.
-    + eapply Forall_impl; [|exact HBs]. intros a Ha. left. eapply phaseB_relB; eauto.
-    + congruence.
-    + intros _. eapply phaseB_relB; eauto.
-    + intros k o H1 H2. apply run_ops_stop_in in H1.
-      rewrite Forall_forall in HclB. specialize (HclB _ H1).
-      destruct o; simpl in *; discriminate.
-    + intros k d H1 _. apply run_ops_stop_in in H1.
-      rewrite Forall_forall in HclB. specialize (HclB _ H1). discriminate.
-    + intros k o _ _. destruct Hfin as (_ & _ & _ & E). exact E.
+  - apply Hstuck. congruence.
+  - apply Hstuck. congruence.
+  - apply Hstuck. congruence.
 Qed.
 
 (** creating the temp file, and the rest *)
-Lemma spec_mktemp its tail n sA :
-  Forall (fun o => tailT o = true) tail ->
+Lemma spec_mktemp its tl n sA :
+  closes tl ->
   nwo = concat_items its ->
-  core_eq s0 sA ->
-  Spec (run_ops nm F ([MkTemp src] ++ (map item_op its ++ tail) ++ [Replace src]) n sA).
+  calm s0 sA ->
+  Spec (run_ops nm F ([MkTemp src] ++ (map item_op its ++ CloseW :: tl) ++ [Replace src]) n sA).
 Proof.
-  intros Htail Hn HA.
+  intros Htl Hn [HA HAi].
   assert (HB0 : phaseB t s0 sA).
   { destruct HA as (E1 & E2 & _). split; [congruence|]. intros q _. now rewrite E1. }
+  destruct HA as (E1 & E2 & E3).
   cbn [app run_ops visible]. destruct (F n) eqn:Fn.
-  - (* created *)
+  - (* created: outfile is bound, we are inside the try *)
     replace ((MkTemp src, sA) :: nil) with ([(MkTemp src, sA)]) by reflexivity.
     apply Spec_prepend; [simpl; fa; exact HB0|].
-    assert (Et : nm (sd sA) (dirpart src) = t).
-    { destruct HA as (E1 & _). unfold t. now rewrite E1. }
+    assert (Et : nm (sd sA) (dirpart src) = t) by (unfold t; now rewrite E1).
     apply spec_fill; auto.
-    + destruct HA as (E1 & E2 & _). simpl. rewrite Et. split; [simpl; congruence|].
+    + simpl. rewrite Et. split; [simpl; congruence|].
       intros q Hq. simpl. rewrite lookup_dset_other by congruence. now rewrite E1.
     + simpl. unfold wname; simpl. now rewrite Et.
     + simpl. rewrite Et. apply lookup_dset_same.
-  - (* NamedTemporaryFile raises: nothing was created *)
+  - (* NamedTemporaryFile raises: outfile is None, nothing was created, nothing to remove *)
     cbn [fail_effect handler].
-    pose proof (unwind_core F (S n) sA (EInj n)) as U.
-    eapply (Spec_stuck sA).
-    + exact HB0.
+    destruct (unwind_notry F (S n) sA (EInj n) HAi) as [U _]. apply Forall_calm_core in U.
+    eapply (Spec_stuck sA); auto.
     + rewrite all_states_with_stop, all_states_prepend. simpl.
       constructor; [apply core_eq_refl | exact U].
     + cbn [with_stop prepend outc]. apply unwind_not_done.
-    + intros k o _ _. destruct HA as (E1 & _). exact E1.
-    + cbn [with_stop stop]. intros k d H. inversion H.
-    + cbn [with_stop stop]. intros k o H H2. inversion H; subst. discriminate.
   - (* killed *)
-    eapply (Spec_stuck sA).
-    + exact HB0.
+    eapply (Spec_stuck sA); auto.
     + unfold all_states; simpl. fa; apply core_eq_refl.
-    + discriminate.
-    + discriminate.
-    + discriminate.
     + discriminate.
 Qed.
 
 (** the whole rewrite *)
-Lemma spec_all A its tail n :
+Lemma spec_all A its tl n :
+  in_try s0 = false ->
   Forall (fun o => classA o = true) A ->
-  Forall (fun o => tailT o = true) tail ->
+  closes tl ->
   nwo = concat_items its ->
-  Spec (run_ops nm F (A ++ [MkTemp src] ++ (map item_op its ++ tail) ++ [Replace src]) n s0)
-  /\ (outc (run_ops nm F (A ++ [MkTemp src] ++ (map item_op its ++ tail) ++ [Replace src]) n s0)
+  Spec (run_ops nm F (A ++ [MkTemp src] ++ (map item_op its ++ CloseW :: tl) ++ [Replace src]) n s0)
+  /\ (outc (run_ops nm F (A ++ [MkTemp src] ++ (map item_op its ++ CloseW :: tl) ++ [Replace src]) n s0)
       = Done -> Forall (fun o => visible o = true) A).
 Proof.
-  intros HA Htail Hn.
-  assert (HAn : Forall (fun o => nosd o = true) A).
-  { eapply Forall_impl; [|exact HA]. intros o; destruct o; simpl; congruence. }
-  pose proof (run_nosd nm F A HAn n s0) as HAs.
+  intros Hi HA Htl Hn.
+  destruct (run_classA nm F A HA n s0 Hi) as [HAs _].
   rewrite run_ops_app.
   set (rA := run_ops nm F A n s0) in *.
-  assert (Hfin : core_eq s0 (final rA)).
+  assert (Hfin : calm s0 (final rA)).
   { rewrite Forall_forall in HAs. apply HAs, final_in_all_states. }
-  assert (HB0 : phaseB t s0 s0) by (split; auto).
   assert (Hstuck : outc rA <> Done -> Spec rA).
-  { intros Hnd. eapply (Spec_stuck s0); auto.
-    - intros k d H1. apply run_ops_stop_in in H1.
-      rewrite Forall_forall in HA. specialize (HA _ H1). discriminate.
-    - intros k o H1 H2. apply run_ops_stop_in in H1.
-      rewrite Forall_forall in HA. specialize (HA _ H1).
-      destruct o; simpl in *; discriminate. }
+  { intros Hnd. eapply (Spec_stuck s0); auto. now apply Forall_calm_core. }
   destruct (outc rA) eqn:Ho.
   - split.
     + apply Spec_prepend.
-      * assert (Hall : Forall (core_eq s0) (map snd (hist rA))).
+      * assert (Hall : Forall (calm s0) (map snd (hist rA))).
         { unfold all_states in HAs. apply Forall_app in HAs. tauto. }
-        eapply Forall_impl; [|exact Hall]. intros a Ha. eapply phaseB_core; eauto.
+        eapply Forall_impl; [|exact Hall]. intros a [Ha _].
+        eapply phaseB_core; [|exact Ha]. split; auto.
       * apply spec_mktemp; auto.
     + intros _. apply (run_ops_done nm F A n s0). exact Ho.
   - split; [apply Hstuck; congruence | rewrite Ho; discriminate].
@@ -719,30 +791,30 @@ End OneFile.
 (** * The two rewriters have that shape *)
 Lemma stream_shape pl src :
   inplace_ops Stream pl src =
-  ([OpenRead src] ++ [MkTemp src] ++ (map item_op (items pl) ++ [CloseW; CloseSrc]) ++ [Replace src])%list.
+  ([OpenRead src] ++ [MkTemp src] ++ (map item_op (items pl) ++ CloseW :: [CloseSrc]) ++ [Replace src])%list.
 Proof. unfold inplace_ops. simpl. now rewrite <- app_assoc. Qed.
 
 Lemma object_shape pl src :
   inplace_ops Object pl src =
   (([OpenRead src] ++ load_ops pl ++ [CloseSrc]) ++ [MkTemp src]
-     ++ (map item_op (items pl) ++ [CloseW]) ++ [Replace src])%list.
+     ++ (map item_op (items pl) ++ CloseW :: []) ++ [Replace src])%list.
 Proof. unfold inplace_ops. simpl. rewrite <- !app_assoc. reflexivity. Qed.
 
 Definition tmp_of (nm : namer) (s0 : st) (src : name) : name := nm (sd s0) (dirpart src).
 
 Theorem inplace_spec nm F k pl src s0 n :
-  fresh_namer nm -> lookup src (sd s0) <> None ->
-  Spec nm F src s0 (new_of k pl) (run_ops nm F (inplace_ops k pl src) n s0).
+  fresh_namer nm -> lookup src (sd s0) <> None -> in_try s0 = false ->
+  Spec nm src s0 (new_of k pl) (run_ops nm F (inplace_ops k pl src) n s0).
 Proof.
-  intros Hf Hs. pose proof (Hf (sd s0) (dirpart src)) as Ht.
+  intros Hf Hs Hi. pose proof (Hf (sd s0) (dirpart src)) as Ht.
   destruct k.
   - rewrite stream_shape.
-    refine (proj1 (spec_all nm F src s0 _ Ht Hs [OpenRead src] (items pl) [CloseW; CloseSrc] n
-                     _ _ eq_refl)); repeat constructor.
+    refine (proj1 (spec_all nm F src s0 _ Ht Hs [OpenRead src] (items pl) [CloseSrc] n
+                     Hi _ _ eq_refl)); repeat constructor.
   - destruct (load_ok pl) eqn:L.
     + rewrite object_shape. unfold new_of. rewrite L.
-      refine (proj1 (spec_all nm F src s0 _ Ht Hs _ (items pl) [CloseW] n _ _ eq_refl));
-        [|repeat constructor].
+      refine (proj1 (spec_all nm F src s0 _ Ht Hs _ (items pl) [] n Hi _ _ eq_refl));
+        [|constructor].
       unfold load_ops. rewrite L. repeat constructor.
     + (* the payload does not parse: the run ends before a temp file exists *)
       unfold new_of. rewrite L.
@@ -753,31 +825,25 @@ Proof.
       rewrite run_ops_app.
       set (rA := run_ops nm F [OpenRead src; LoadFail] n s0).
       assert (Hnd : outc rA <> Done).
-      { intros H. apply run_ops_done in H. destruct H as [_ H].
+      { intros H. apply run_ops_done in H. destruct H as (_ & H & _).
         inversion H as [|? ? _ H2]. inversion H2 as [|? ? H3 _]. discriminate. }
       assert (Hall : Forall (core_eq s0) (all_states rA)).
-      { apply run_nosd. repeat constructor. }
-      assert (HS : Spec nm F src s0 None rA).
-      { eapply (Spec_stuck nm F src s0 None s0); auto.
-        - split; auto.
-        - intros k d H. apply run_ops_stop_in in H. simpl in H.
-          destruct H as [H|[H|[]]]; discriminate.
-        - intros k o H H2. apply run_ops_stop_in in H. simpl in H.
-          destruct H as [H|[H|[]]]; subst; discriminate. }
+      { apply Forall_calm_core. apply run_classA; auto; repeat constructor. }
+      assert (HS : Spec nm src s0 None rA) by (eapply (Spec_stuck nm src s0 None s0); auto).
       destruct (outc rA); try exact HS. congruence.
 Qed.
 
 (** ** what the property asks of a single rewrite *)
 Theorem source_old_or_new nm F k pl src old s0 n :
-  fresh_namer nm -> lookup src (sd s0) = Some old ->
+  fresh_namer nm -> lookup src (sd s0) = Some old -> in_try s0 = false ->
   Forall (fun s => (nrep s = nrep s0 /\ lookup src (sd s) = Some old) \/
                    (nrep s = S (nrep s0) /\
                     exists nw, new_of k pl = Some nw /\ lookup src (sd s) = Some nw))
          (all_states (run_ops nm F (inplace_ops k pl src) n s0)).
 Proof.
-  intros Hf Hs.
+  intros Hf Hs Hi.
   assert (Hs' : lookup src (sd s0) <> None) by congruence.
-  pose proof (sp_states _ _ _ _ _ _ (inplace_spec nm F k pl src s0 n Hf Hs')) as H.
+  pose proof (sp_states _ _ _ _ _ (inplace_spec nm F k pl src s0 n Hf Hs' Hi)) as H.
   eapply Forall_impl; [|exact H]. intros s [(A & B)|(nw & E & A & B)].
   - left. split; auto. rewrite B; auto.
     intros E. pose proof (Hf (sd s0) (dirpart src)) as X. rewrite <- E in X. congruence.
@@ -785,13 +851,13 @@ Proof.
 Qed.
 
 Theorem others_untouched nm F k pl src s0 n :
-  fresh_namer nm -> lookup src (sd s0) <> None ->
+  fresh_namer nm -> lookup src (sd s0) <> None -> in_try s0 = false ->
   Forall (fun s => forall q, q <> src -> q <> tmp_of nm s0 src ->
                              lookup q (sd s) = lookup q (sd s0))
          (all_states (run_ops nm F (inplace_ops k pl src) n s0)).
 Proof.
-  intros Hf Hs.
-  pose proof (sp_states _ _ _ _ _ _ (inplace_spec nm F k pl src s0 n Hf Hs)) as H.
+  intros Hf Hs Hi.
+  pose proof (sp_states _ _ _ _ _ (inplace_spec nm F k pl src s0 n Hf Hs Hi)) as H.
   eapply Forall_impl; [|exact H]. intros s [(A & B)|(nw & E & A & B)] q Hq Hq2.
   - apply B. exact Hq2.
   - rewrite B. destruct (String.eqb q src) eqn:E2; auto.
@@ -799,66 +865,50 @@ Proof.
 Qed.
 
 Theorem success_same_entries nm F k pl src s0 n :
-  fresh_namer nm -> lookup src (sd s0) <> None ->
+  fresh_namer nm -> lookup src (sd s0) <> None -> in_try s0 = false ->
   outc (run_ops nm F (inplace_ops k pl src) n s0) = Done ->
   exists nw, new_of k pl = Some nw /\
     forall q, lookup q (sd (final (run_ops nm F (inplace_ops k pl src) n s0)))
               = if String.eqb q src then Some nw else lookup q (sd s0).
 Proof.
-  intros Hf Hs Hd.
-  destruct (sp_done _ _ _ _ _ _ (inplace_spec nm F k pl src s0 n Hf Hs) Hd) as (nw & E & _ & B).
+  intros Hf Hs Hi Hd.
+  destruct (sp_done _ _ _ _ _ (inplace_spec nm F k pl src s0 n Hf Hs Hi) Hd)
+    as (nw & E & (_ & B) & _).
   eauto.
 Qed.
 
+(** raised or killed: the source is intact and NOTHING but the temp name can differ from the
+    start directory (this is also all that a failed clean-up can leave) *)
 Theorem failure_leaves_old nm F k pl src old s0 n :
-  fresh_namer nm -> lookup src (sd s0) = Some old ->
+  fresh_namer nm -> lookup src (sd s0) = Some old -> in_try s0 = false ->
   outc (run_ops nm F (inplace_ops k pl src) n s0) <> Done ->
   lookup src (sd (final (run_ops nm F (inplace_ops k pl src) n s0))) = Some old /\
-  nrep (final (run_ops nm F (inplace_ops k pl src) n s0)) = nrep s0.
+  nrep (final (run_ops nm F (inplace_ops k pl src) n s0)) = nrep s0 /\
+  lookup (tmp_of nm s0 src) (sd s0) = None /\
+  forall q, q <> tmp_of nm s0 src ->
+    lookup q (sd (final (run_ops nm F (inplace_ops k pl src) n s0))) = lookup q (sd s0).
 Proof.
-  intros Hf Hs Hd.
+  intros Hf Hs Hi Hd.
   assert (Hs' : lookup src (sd s0) <> None) by congruence.
-  destruct (sp_notdone _ _ _ _ _ _ (inplace_spec nm F k pl src s0 n Hf Hs') Hd) as (A & B).
-  split; auto. rewrite B; auto.
-  intros E. pose proof (Hf (sd s0) (dirpart src)) as X. unfold tmp_of in *. rewrite <- E in X.
-  congruence.
+  destruct (sp_notdone _ _ _ _ _ (inplace_spec nm F k pl src s0 n Hf Hs' Hi) Hd) as (A & B).
+  pose proof (Hf (sd s0) (dirpart src)) as X.
+  repeat split; auto. rewrite B; auto.
+  intros E. unfold tmp_of in *. rewrite <- E in X. congruence.
 Qed.
 
-(** the clean-up that IS there: failures before the temp exists, and a failing rename
-    whose handler's remove works *)
-Theorem raise_no_temp_partial nm F k pl src s0 n kk o :
-  fresh_namer nm -> lookup src (sd s0) <> None ->
-  stop (run_ops nm F (inplace_ops k pl src) n s0) = Some (kk, o) ->
-  early o = true \/ ((exists d, o = Replace d) /\ F (S kk) = NoFault) ->
+(** a rewrite that fails by raising leaves exactly the original directory *)
+Theorem raise_leaves_no_temp nm F k pl src s0 n e :
+  fresh_namer nm -> lookup src (sd s0) <> None -> in_try s0 = false ->
+  outc (run_ops nm F (inplace_ops k pl src) n s0) = Raised e ->
+  rmfail (run_ops nm F (inplace_ops k pl src) n s0) = false ->
+  (forall kk, stop (run_ops nm F (inplace_ops k pl src) n s0) <> Some (kk, CloseSrc)) ->
   deq (sd (final (run_ops nm F (inplace_ops k pl src) n s0))) (sd s0).
 Proof.
-  intros Hf Hs Hst [He|[(d & ->) Hr]].
-  - rewrite (sp_early _ _ _ _ _ _ (inplace_spec nm F k pl src s0 n Hf Hs) _ _ Hst He).
-    apply deq_refl.
-  - exact (sp_replace _ _ _ _ _ _ (inplace_spec nm F k pl src s0 n Hf Hs) _ _ Hst Hr).
+  intros Hf Hs Hi Ho Hr Hst.
+  exact (sp_raise _ _ _ _ _ (inplace_spec nm F k pl src s0 n Hf Hs Hi) e Ho Hr Hst).
 Qed.
 
-(** the clean-up that is NOT there: any failure while the temp file is being filled or
-    closed leaves it in the directory *)
-Theorem late_failure_leaves_temp nm F k pl src s0 n kk o :
-  fresh_namer nm -> lookup src (sd s0) <> None ->
-  stop (run_ops nm F (inplace_ops k pl src) n s0) = Some (kk, o) -> late o = true ->
-  lookup (tmp_of nm s0 src) (sd s0) = None /\
-  lookup (tmp_of nm s0 src) (sd (final (run_ops nm F (inplace_ops k pl src) n s0))) <> None.
-Proof.
-  intros Hf Hs Hst Hl. split; [apply Hf|].
-  exact (sp_late _ _ _ _ _ _ (inplace_spec nm F k pl src s0 n Hf Hs) _ _ Hst Hl).
-Qed.
-
-(** ** fault-free execution up to a formatting failure *)
-Lemma unwind_nofault F n s e : (forall i, F i = NoFault) ->
-  outc (unwind F n s e) = Raised e.
-Proof.
-  intros H. unfold unwind. rewrite !H.
-  destruct (wh_is_open s); [destruct (src_open (set_w TClosed s))|destruct (src_open s)];
-    reflexivity.
-Qed.
-
+(** without injected faults a data failure always ends that way *)
 Lemma run_nofault_done nm F ops : (forall i, F i = NoFault) ->
   Forall (fun o => visible o = true) ops ->
   forall n s, outc (run_ops nm F ops n s) = Done.
@@ -873,19 +923,15 @@ Proof.
   induction 1 as [|[c|] l H _ IH]; simpl; constructor; auto; congruence.
 Qed.
 
-Theorem format_error_leaves_temp nm F k pl src old s0 n pre post :
-  fresh_namer nm -> lookup src (sd s0) = Some old ->
+Theorem format_error_clean nm F k pl src s0 n pre post :
+  fresh_namer nm -> lookup src (sd s0) <> None -> in_try s0 = false ->
   (forall i, F i = NoFault) ->
   (k = Object -> load_ok pl = true) ->
   items pl = (pre ++ None :: post)%list -> Forall (fun i => i <> None) pre ->
   let r := run_ops nm F (inplace_ops k pl src) n s0 in
-  outc r = Raised EFormat /\
-  lookup src (sd (final r)) = Some old /\
-  lookup (tmp_of nm s0 src) (sd s0) = None /\
-  lookup (tmp_of nm s0 src) (sd (final r)) <> None.
+  outc r = Raised EFormat /\ deq (sd (final r)) (sd s0).
 Proof.
-  intros Hf Hs HF Hl Hi Hpre r.
-  assert (Hs' : lookup src (sd s0) <> None) by congruence.
+  intros Hf Hs Hi0 HF Hl Hi Hpre r.
   assert (Hshape : exists P Q, inplace_ops k pl src = (P ++ FmtFail :: Q)%list /\
                                Forall (fun o => visible o = true) P).
   { destruct k.
@@ -899,59 +945,65 @@ Proof.
         rewrite <- !app_assoc. reflexivity.
       + apply Forall_app. split; [repeat constructor | now apply is_some_visible]. }
   destruct Hshape as (P & Q & HPQ & HP).
-  assert (Hr : outc r = Raised EFormat /\ exists kk, stop r = Some (kk, FmtFail)).
+  assert (Hr : outc r = Raised EFormat /\ rmfail r = false /\
+               exists kk, stop r = Some (kk, FmtFail)).
   { unfold r. rewrite HPQ, run_ops_app, (run_nofault_done nm F P HF HP).
-    cbn [run_ops visible prepend with_stop outc stop data_exn].
-    split; [now apply unwind_nofault | eauto]. }
-  destruct Hr as (Ho & kk & Hst).
+    cbn [run_ops visible prepend with_stop outc stop rmfail data_exn].
+    destruct (unwind_nofault F (next (run_ops nm F P n s0)) (final (run_ops nm F P n s0))
+                EFormat HF) as [U1 U2].
+    repeat split; eauto. }
+  destruct Hr as (Ho & Hrm & kk & Hst).
   split; [exact Ho|].
-  split.
-  - apply (failure_leaves_old nm F k pl src old s0 n Hf Hs). fold r. congruence.
-  - apply (late_failure_leaves_temp nm F k pl src s0 n kk FmtFail Hf Hs' Hst eq_refl).
+  apply (raise_leaves_no_temp nm F k pl src s0 n EFormat Hf Hs Hi0 Ho Hrm).
+  fold r. intros k0 H. rewrite Hst in H. discriminate.
 Qed.
 
 (** * out names another file: written directly, the source is only read *)
 Theorem direct_spec nm F k pl src out s0 n :
+  in_try s0 = false ->
   Forall (fun s => nrep s = nrep s0 /\ forall q, q <> out -> lookup q (sd s) = lookup q (sd s0))
          (all_states (run_ops nm F (direct_ops k pl src out) n s0)).
 Proof.
-  assert (G : forall A tail, Forall (fun o => nosd o = true) A ->
+  intros Hi.
+  assert (G : forall A tail, Forall (fun o => classA o = true) A ->
             Forall (fun o => classB o = true) tail ->
             Forall (fun s => nrep s = nrep s0 /\
                              forall q, q <> out -> lookup q (sd s) = lookup q (sd s0))
               (all_states (run_ops nm F (A ++ [OpenWrite out] ++ map item_op (items pl) ++ tail) n s0))).
   { intros A tail HA Htail.
-    pose proof (run_nosd nm F A HA n s0) as HAs.
+    destruct (run_classA nm F A HA n s0 Hi) as [HAs _].
     assert (Pcore : forall s, core_eq s0 s ->
               nrep s = nrep s0 /\ forall q, q <> out -> lookup q (sd s) = lookup q (sd s0)).
     { intros s (E1 & E2 & _). split; auto. intros q _. now rewrite E1. }
+    assert (Pcalm : forall s, calm s0 s ->
+              nrep s = nrep s0 /\ forall q, q <> out -> lookup q (sd s) = lookup q (sd s0)).
+    { intros s [H _]. auto. }
     rewrite run_ops_app. set (rA := run_ops nm F A n s0) in *.
-    assert (Hfin : core_eq s0 (final rA)).
+    assert (Hfin : calm s0 (final rA)).
     { rewrite Forall_forall in HAs. apply HAs, final_in_all_states. }
     destruct (outc rA); try (eapply Forall_impl; [|exact HAs]; auto).
     rewrite all_states_prepend. apply Forall_app. split.
     { unfold all_states in HAs. apply Forall_app in HAs. destruct HAs as [H _].
       eapply Forall_impl; [|exact H]; auto. }
-    set (sA := final rA) in *. cbn [app run_ops visible]. destruct (F (next rA)).
+    set (sA := final rA) in *. destruct Hfin as [Hfc Hfi].
+    cbn [app run_ops visible]. destruct (F (next rA)).
     - rewrite all_states_prepend. simpl. constructor; [auto|].
       set (s2 := exec nm (OpenWrite out) sA).
-      assert (H2 : wname s2 = Some out /\ lookup out (sd s2) <> None /\
-                   nrep s2 = nrep s0 /\
+      assert (H2 : wname s2 = Some out /\ nrep s2 = nrep s0 /\
                    forall q, q <> out -> lookup q (sd s2) = lookup q (sd s0)).
-      { unfold s2; simpl. destruct Hfin as (E1 & E2 & _). repeat split; auto.
-        - rewrite lookup_dset_same. discriminate.
-        - intros q Hq. rewrite lookup_dset_other by congruence. now rewrite E1. }
-      destruct H2 as (W & L & N & Q).
+      { unfold s2; simpl. destruct Hfc as (E1 & E2 & _). repeat split; auto.
+        intros q Hq. rewrite lookup_dset_other by congruence. now rewrite E1. }
+      destruct H2 as (W & N & Q).
       assert (HB : Forall (fun o => classB o = true) (map item_op (items pl) ++ tail)).
       { apply Forall_app. split; auto. rewrite Forall_forall. intros o Ho.
         apply in_map_iff in Ho. destruct Ho as ([c|] & <- & _); reflexivity. }
-      pose proof (run_classB nm F out _ HB (S (next rA)) s2 W L) as HBs.
-      eapply Forall_impl; [|exact HBs]. intros s (B1 & _ & B3 & _). split; [congruence|].
+      pose proof (run_classB nm F out _ HB (S (next rA)) s2 W) as HBs.
+      eapply Forall_impl; [|exact HBs]. intros s (B1 & _ & B3). split; [congruence|].
       intros q Hq. rewrite B3; auto.
     - rewrite all_states_with_stop, all_states_prepend. simpl. constructor; [auto|].
       cbn [fail_effect handler].
-      pose proof (unwind_core F (S (next rA)) sA (EInj (next rA))) as U.
-      eapply Forall_impl; [|exact U]. intros s Hs. apply Pcore.
+      destruct (unwind_notry F (S (next rA)) sA (EInj (next rA)) Hfi) as [U _].
+      eapply Forall_impl; [|exact U]. intros s [Hs _]. apply Pcore.
       eapply core_eq_trans; eauto.
     - unfold all_states; simpl. fa; auto. }
   destruct k; unfold direct_ops.
@@ -1029,47 +1081,71 @@ Definition snap_ok (xf : xform) (k : kind) (paths : list name) (d0 : dir) (s : s
     lookup t (apply_new xf k (firstn j paths) d0) = None /\
     forall q, q <> t -> lookup q (sd s) = lookup q (apply_new xf k (firstn j paths) d0).
 
+Lemma match_notdone {A} (o : outcome) (x y : A) :
+  o <> Done -> match o with Done => x | _ => y end = y.
+Proof. destruct o; congruence. Qed.
+
 Theorem loop_spec nm F xf k m : fresh_namer nm ->
-  forall paths, inplace_mode m paths -> forall n s0,
-  Forall (snap_ok xf k paths (sd s0)) (all_states (run_files nm F xf k m paths n s0)) /\
-  (outc (run_files nm F xf k m paths n s0) = Done ->
-   deq (sd (final (run_files nm F xf k m paths n s0))) (apply_new xf k paths (sd s0))).
+  forall paths, inplace_mode m paths -> forall n s0, in_try s0 = false ->
+  let r := run_files nm F xf k m paths n s0 in
+  Forall (snap_ok xf k paths (sd s0)) (all_states r) /\
+  (outc r = Done -> deq (sd (final r)) (apply_new xf k paths (sd s0))) /\
+  (forall e, outc r = Raised e -> rmfail r = false ->
+     (forall kk, stop r <> Some (kk, CloseSrc)) ->
+     exists j, j <= List.length paths /\
+               deq (sd (final r)) (apply_new xf k (firstn j paths) (sd s0))).
 Proof.
-  intros Hf. induction paths as [|p rest IH]; intros Hm n s0.
-  - cbn [run_files]. split.
+  intros Hf. induction paths as [|p rest IH]; intros Hm n s0 Hi0.
+  - cbn [run_files]. split; [|split].
     + unfold all_states; simpl. constructor; [|constructor].
       exists 0, (nm (sd s0) ""). simpl. split; [lia|]. split; [apply Hf | auto].
     + intros _. apply deq_refl.
+    + discriminate.
   - assert (Hm' : inplace_mode m rest) by (intros q Hq; apply Hm; now right).
     cbn [run_files].
     destruct (lookup p (sd s0)) as [old|] eqn:Ep.
     2:{ (* not a file: skipped *)
-      destruct (IH Hm' n s0) as [I1 I2]. split.
+      destruct (IH Hm' n s0 Hi0) as (I1 & I2 & I3). split; [|split].
       - eapply Forall_impl; [|exact I1]. intros s (j & t & J1 & J2 & J3).
         exists (S j), t. cbn [firstn apply_new length]. rewrite Ep. split; [lia|]. auto.
-      - intros H. cbn [apply_new]. rewrite Ep. auto. }
+      - intros H. cbn [apply_new]. rewrite Ep. auto.
+      - intros e H1 H2 H3. destruct (I3 e H1 H2 H3) as (j & J1 & J2).
+        exists (S j). cbn [firstn apply_new length]. rewrite Ep. split; [lia | exact J2]. }
     destruct (xf old) as [pl|] eqn:Ex.
-    2:{ split; [|discriminate].
+    2:{ split; [|split]; [|discriminate|discriminate].
         unfold all_states; simpl. constructor; [|constructor].
         exists 0, (nm (sd s0) ""). simpl. split; [lia|]. split; [apply Hf | auto]. }
     rewrite (inplace_mode_ops m (p :: rest) k pl p Hm (or_introl eq_refl)).
     assert (Hs : lookup p (sd s0) <> None) by congruence.
-    pose proof (inplace_spec nm F k pl p s0 n Hf Hs) as S1.
+    pose proof (inplace_spec nm F k pl p s0 n Hf Hs Hi0) as S1.
     set (r1 := run_ops nm F (inplace_ops k pl p) n s0) in *.
-    (* every state of this file's rewrite is a snapshot with j = 0 or j = 1 *)
     assert (H1 : forall s, okst nm p s0 (new_of k pl) s -> snap_ok xf k (p :: rest) (sd s0) s).
     { intros s [(A & B)|(nw & E & A & B)].
       - exists 0, (nm (sd s0) (dirpart p)). simpl. split; [lia|]. split; [apply Hf | exact B].
       - exists 1, (nm (dset p nw (sd s0)) ""). cbn [firstn apply_new length].
         rewrite Ep, Ex, E. cbn [apply_new]. split; [lia|]. split; [apply Hf|].
         intros q _. rewrite B, lookup_dset. reflexivity. }
-    pose proof (sp_states _ _ _ _ _ _ S1) as St.
-    destruct (outc r1) eqn:Ho.
+    pose proof (sp_states _ _ _ _ _ S1) as St.
+    assert (Hstuck : outc r1 <> Done ->
+              Forall (snap_ok xf k (p :: rest) (sd s0)) (all_states r1) /\
+              (outc r1 = Done -> deq (sd (final r1)) (apply_new xf k (p :: rest) (sd s0))) /\
+              (forall e, outc r1 = Raised e -> rmfail r1 = false ->
+                 (forall kk, stop r1 <> Some (kk, CloseSrc)) ->
+                 exists j, j <= List.length (p :: rest) /\
+                   deq (sd (final r1)) (apply_new xf k (firstn j (p :: rest)) (sd s0)))).
+    { intros Hnd. split; [|split].
+      - eapply Forall_impl; [|exact St]. exact H1.
+      - intros H. congruence.
+      - intros e He Hr Hst. exists 0. simpl. split; [lia|].
+        exact (sp_raise _ _ _ _ _ S1 e He Hr Hst). }
+    assert (Hdec : outc r1 = Done \/ outc r1 <> Done)
+      by (destruct (outc r1); [now left | right; discriminate ..]).
+    destruct Hdec as [Ho|Ho]; [rewrite Ho | rewrite match_notdone by exact Ho; now apply Hstuck].
     + (* this file is done: on to the rest, from a directory that is the start one with p new *)
-      destruct (sp_done _ _ _ _ _ _ S1 Ho) as (nw & E & _ & B).
+      destruct (sp_done _ _ _ _ _ S1 Ho) as (nw & E & (_ & B) & Hi1).
       assert (Hd : deq (sd (final r1)) (dset p nw (sd s0))).
       { intros q. rewrite B, lookup_dset. reflexivity. }
-      destruct (IH Hm' (next r1) (final r1)) as [I1 I2]. split.
+      destruct (IH Hm' (next r1) (final r1) Hi1) as (I1 & I2 & I3). split; [|split].
       * rewrite all_states_prepend. apply Forall_app. split.
         -- unfold all_states in St. apply Forall_app in St. destruct St as [St _].
            eapply Forall_impl; [|exact St]. exact H1.
@@ -1081,19 +1157,20 @@ Proof.
            ++ intros q Hq. rewrite <- X. auto.
       * cbn [prepend outc final]. intros H. cbn [apply_new]. rewrite Ep, Ex, E.
         intros q. rewrite (I2 H q). apply apply_new_ext. exact Hd.
-    + split; [|intros H; congruence]. eapply Forall_impl; [|exact St]. exact H1.
-    + split; [|intros H; congruence]. eapply Forall_impl; [|exact St]. exact H1.
-    + split; [|intros H; congruence]. eapply Forall_impl; [|exact St]. exact H1.
+      * cbn [prepend outc final rmfail stop]. intros e H2 H3 H4.
+        destruct (I3 e H2 H3 H4) as (j & J1 & J2).
+        exists (S j). cbn [firstn apply_new length]. rewrite Ep, Ex, E. split; [lia|].
+        intros q. rewrite (J2 q). apply apply_new_ext. exact Hd.
 Qed.
 
 (** files the glob did not return are never touched *)
 Theorem unmatched_untouched nm F xf k m paths n s0 :
-  fresh_namer nm -> inplace_mode m paths ->
+  fresh_namer nm -> inplace_mode m paths -> in_try s0 = false ->
   Forall (fun s => exists t, forall q, ~ In q paths -> q <> t ->
                                        lookup q (sd s) = lookup q (sd s0))
          (all_states (run_files nm F xf k m paths n s0)).
 Proof.
-  intros Hf Hm. destruct (loop_spec nm F xf k m Hf paths Hm n s0) as [H _].
+  intros Hf Hm Hi. destruct (loop_spec nm F xf k m Hf paths Hm n s0 Hi) as [H _].
   eapply Forall_impl; [|exact H]. intros s (j & t & _ & _ & J). exists t. intros q Hq Hq2.
   rewrite J by exact Hq2. apply apply_new_notin. intros X. apply Hq. eapply firstn_incl; eauto.
 Qed.
